@@ -2352,3 +2352,169 @@ Proof.
   destruct EA as [A1 A2]. cbn [joinl flat map concat]. rewrite app_nil_r.
   rewrite trail_nl_allspnl by exact A1. rewrite A2. reflexivity.
 Qed.
+
+(* ====================================================================== E at the end of the file:
+   also the blanks that end the last line of the file are layout *)
+Definition rstrip_last (L : list (list Z)) : list (list Z) :=
+  match L with
+  | [] => []
+  | _ => removelast L ++ [rstrip (last L [])]
+  end.
+
+Definition strip_line_edges_end (at_start : bool) (s : list Z) : list Z :=
+  joinl (edge_strip at_start (rstrip_last (split_nl s))).
+
+Lemma rstrip_decomp l : exists sp, l = rstrip l ++ sp /\ forallb is_sp sp = true.
+Proof.
+  induction l as [|c l IH]; [exists []; auto|]. cbn [rstrip]. destruct (forallb is_sp (c :: l)) eqn:F.
+  - exists (c :: l). auto.
+  - destruct IH as (sp & E & Hs). exists sp. split; [cbn [app]; f_equal; exact E | exact Hs].
+Qed.
+
+Lemma trail_nl_app_sp x sp : forallb is_sp sp = true -> trail_nl (x ++ sp) = trail_nl x.
+Proof.
+  intros Hs. pose proof (all_sp_all_spnl sp Hs) as Hs2.
+  assert (Hn : existsb is_nl sp = false).
+  { destruct (existsb is_nl sp) eqn:N; [|reflexivity]. apply existsb_exists in N. destruct N as (y & Hy & Hy2).
+    rewrite forallb_forall in Hs. specialize (Hs y Hy). unfold is_sp in Hs. unfold is_nl in Hy2.
+    apply Z.eqb_eq in Hs, Hy2. subst. discriminate. }
+  destruct (spnl_decomp x) as [H | (a & c & b & -> & Hc & Hb)].
+  - rewrite !trail_nl_allspnl by (try rewrite forallb_app, H, Hs2; reflexivity || assumption).
+    rewrite existsb_app, Hn, orb_false_r. reflexivity.
+  - rewrite <- app_assoc. cbn [app]. rewrite !trail_nl_core by (try rewrite forallb_app, Hb, Hs2; reflexivity || assumption).
+    rewrite existsb_app, Hn, orb_false_r. reflexivity.
+Qed.
+
+Lemma joinl_last_app L x sp : joinl (L ++ [x ++ sp]) = joinl (L ++ [x]) ++ sp.
+Proof.
+  destruct L as [|l ls].
+  - cbn. rewrite !app_nil_r. reflexivity.
+  - rewrite !joinl_snoc by discriminate. rewrite <- app_assoc. reflexivity.
+Qed.
+
+(* the squeeze does not look at a non-empty last line *)
+Lemma sq'_step t t1 r' : r' <> [] ->
+  sq' (t :: t1 :: r') = if is_nil t && is_nil t1 then sq' (t1 :: r') else t :: sq' (t1 :: r').
+Proof. destruct r'; [congruence | reflexivity]. Qed.
+
+Lemma sq'_last_nonempty T : exists T', forall y, y <> [] -> sq' (T ++ [y]) = T' ++ [y].
+Proof.
+  induction T as [|t T IH].
+  - exists []. intros y _. reflexivity.
+  - destruct IH as (T' & IH). destruct T as [|t1 T1].
+    + exists [t]. intros y Hy. reflexivity.
+    + destruct (is_nil t && is_nil t1) eqn:D.
+      * exists T'. intros y Hy. change ((t :: t1 :: T1) ++ [y]) with (t :: t1 :: (T1 ++ [y])).
+        rewrite sq'_step by (destruct T1; discriminate). rewrite D. apply (IH y Hy).
+      * exists (t :: T'). intros y Hy. change ((t :: t1 :: T1) ++ [y]) with (t :: t1 :: (T1 ++ [y])).
+        rewrite sq'_step by (destruct T1; discriminate). rewrite D. cbn [app]. f_equal. apply (IH y Hy).
+Qed.
+
+Lemma fmt_lines_rstrip_last cfg l0 ls : Forall noNL (l0 :: ls) ->
+  trail_nl (joinl (fmt_lines cfg (hd [] (rstrip_last (l0 :: ls))) (tl (rstrip_last (l0 :: ls)))))
+  = trail_nl (joinl (fmt_lines cfg l0 ls)).
+Proof.
+  intros HN. set (n := (Z.to_nat (f_width cfg) * Z.to_nat (f_depth cfg))%nat).
+  assert (Eind : indent_bytes cfg = repeat SP n) by reflexivity.
+  destruct ls as [|l1 ls'] using rev_ind.
+  - (* a single line *)
+    cbn [rstrip_last removelast last app hd tl].
+    destruct (rstrip_decomp l0) as (sp & E & Hs). remember (rstrip l0) as v eqn:Dv.
+    unfold fmt_lines. change (fmt_tail cfg []) with (@nil (list Z)). cbn [sq joinl flat map concat]. rewrite !app_nil_r.
+    unfold fmt_head. cbn [is_nil].
+    destruct (forallb is_sp l0) eqn:B.
+    + (* blank *)
+      assert (Ev : v = []) by (rewrite Dv; apply rstrip_all_sp; exact B).
+      pose proof (proj1 (all_sp_lstrip l0) B) as El.
+      rewrite Ev. destruct (f_at_start cfg).
+      * rewrite (head_xx_blank DASH _ l0 El), (head_xx_blank SLASH _ l0 El). unfold dollar_head. rewrite B. reflexivity.
+      * rewrite (head_xx_blank DASH _ l0 El). cbn.
+        rewrite trail_nl_allspnl by (apply all_sp_all_spnl; exact B).
+        assert (Hn : existsb is_nl l0 = false).
+        { destruct (existsb is_nl l0) eqn:N; [|reflexivity]. apply existsb_exists in N. destruct N as (y & Hy & Hy2).
+          rewrite forallb_forall in B. specialize (B y Hy). unfold is_sp in B. unfold is_nl in Hy2.
+          apply Z.eqb_eq in B, Hy2. subst. discriminate. }
+        rewrite Hn. reflexivity.
+    + assert (Hv : lstrip v <> []).
+      { apply lstrip_nonblank. destruct (forallb is_sp v) eqn:F; [|reflexivity].
+        rewrite E, forallb_app, F, Hs in B. discriminate. }
+      destruct (f_at_start cfg); rewrite E.
+      * fold (head_start v). fold (head_start (v ++ sp)). rewrite head_start_app_sp by assumption.
+        unfold dollar_head. cbn [is_nil orb]. rewrite !andb_true_r, forallb_app, Hs, andb_true_r.
+        destruct (forallb is_sp (head_start v)); [reflexivity|]. symmetry. apply trail_nl_app_sp. exact Hs.
+      * rewrite head_xx_app_sp by (reflexivity || assumption). symmetry. apply trail_nl_app_sp. exact Hs.
+  - (* the last line is a later one *)
+    clear IHls'. set (P := ls') in *. set (x := l1) in *.
+    assert (ERL : rstrip_last (l0 :: P ++ [x]) = l0 :: P ++ [rstrip x]).
+    { unfold rstrip_last. change (l0 :: P ++ [x]) with ((l0 :: P) ++ [x]). rewrite removelast_last, last_last. reflexivity. }
+    rewrite ERL. cbn [hd tl].
+    destruct (rstrip_decomp x) as (sp & E & Hs). remember (rstrip x) as v eqn:Dv.
+    unfold fmt_lines.
+    rewrite (fmt_head_tail_irrelevant cfg l0 (P ++ [v]) (P ++ [x])) by (destruct P; reflexivity).
+    rewrite !fmt_tail_lines, !map_last_snoc.
+    set (T := map (tail_line (indent_bytes cfg) false) P).
+    destruct (forallb is_sp x) eqn:B.
+    + assert (Ev : v = []) by (rewrite Dv; apply rstrip_all_sp; exact B).
+      assert (E1 : tail_line (indent_bytes cfg) true x = tail_line (indent_bytes cfg) true v).
+      { rewrite Ev. unfold tail_line, indent_last. cbn [andb]. rewrite Eind, !all_sp_reind2, B. reflexivity. }
+      rewrite E1. reflexivity.
+    + assert (Hv : lstrip v <> []).
+      { apply lstrip_nonblank. destruct (forallb is_sp v) eqn:F; [|reflexivity].
+        rewrite E, forallb_app, F, Hs in B. discriminate. }
+      assert (Bv : forallb is_sp v = false).
+      { destruct (forallb is_sp v) eqn:F; [|reflexivity]. apply all_sp_lstrip in F. congruence. }
+      set (y := tail_line (indent_bytes cfg) true v).
+      assert (E1 : tail_line (indent_bytes cfg) true x = y ++ sp).
+      { unfold y, tail_line, indent_last. cbn [andb]. rewrite E. rewrite Eind, reind2_app_sp by assumption.
+        rewrite forallb_app, !all_sp_reind2, Bv. reflexivity. }
+      assert (Hy : y <> []).
+      { unfold y, tail_line, indent_last. cbn [andb]. rewrite Eind, all_sp_reind2, Bv.
+        intros Ey. pose proof (all_sp_reind2 n v) as A. rewrite Ey, Bv in A. discriminate. }
+      assert (Hys : y ++ sp <> []) by (destruct y; [congruence | discriminate]).
+      rewrite E1. destruct (sq'_last_nonempty T) as (T' & HT). rewrite !sq_eq, (HT y Hy), (HT (y ++ sp) Hys).
+      assert (D : forall h z, z <> [] -> dollar_head h (T ++ [z]) = h).
+      { intros h z Hz. apply dollar_head_keep; [destruct T; reflexivity|].
+        destruct T as [|a [|b T'']]; cbn [app]; [destruct z; [congruence | reflexivity] | destruct a; reflexivity | destruct a; reflexivity]. }
+      set (h := fmt_head cfg l0 (P ++ [x])).
+      assert (EH : (if f_at_start cfg then dollar_head h (T ++ [y ++ sp]) else h) = (if f_at_start cfg then dollar_head h (T ++ [y]) else h)).
+      { destruct (f_at_start cfg); [rewrite !D by assumption|]; reflexivity. }
+      rewrite EH. set (h' := if f_at_start cfg then dollar_head h (T ++ [y]) else h).
+      change (h' :: T' ++ [y ++ sp]) with ((h' :: T') ++ [y ++ sp]). change (h' :: T' ++ [y]) with ((h' :: T') ++ [y]).
+      rewrite joinl_last_app. symmetry. apply trail_nl_app_sp. exact Hs.
+Qed.
+
+Lemma noNL_rstrip_last L : Forall noNL L -> Forall noNL (rstrip_last L).
+Proof.
+  intros H. destruct L as [|l L']; [constructor|]. unfold rstrip_last. apply Forall_app. split.
+  - rewrite Forall_forall in *. intros x Hx. apply H. destruct (exists_last (l := l :: L') ltac:(discriminate)) as (q & z & E).
+    rewrite E in *. rewrite removelast_last in Hx. apply in_or_app. left. exact Hx.
+  - constructor; [|constructor]. apply noNL_rstrip. rewrite Forall_forall in H. apply H.
+    destruct (exists_last (l := l :: L') ltac:(discriminate)) as (q & z & E). rewrite E, last_last.
+    apply in_or_app. right. left. reflexivity.
+Qed.
+
+Theorem fmt_run_depends_on_norm_end cfg r1 r2 : f_at_end cfg = true ->
+  strip_line_edges_end (f_at_start cfg) (canon_ws r1) = strip_line_edges_end (f_at_start cfg) (canon_ws r2) ->
+  fmt_run cfg r1 = fmt_run cfg r2.
+Proof.
+  unfold strip_line_edges_end. intros He H.
+  destruct (split_nl (canon_ws r1)) as [|a1 t1] eqn:S1; [destruct (split_nl_nonempty _ S1)|].
+  destruct (split_nl (canon_ws r2)) as [|a2 t2] eqn:S2; [destruct (split_nl_nonempty _ S2)|].
+  pose proof (split_nl_noNL (canon_ws r1)) as N1. rewrite S1 in N1.
+  pose proof (split_nl_noNL (canon_ws r2)) as N2. rewrite S2 in N2.
+  rewrite (fmt_run_lines cfg r1 a1 t1 S1), (fmt_run_lines cfg r2 a2 t2 S2), He.
+  rewrite <- (fmt_lines_rstrip_last cfg a1 t1 N1), <- (fmt_lines_rstrip_last cfg a2 t2 N2).
+  pose proof (noNL_rstrip_last _ N1) as M1. pose proof (noNL_rstrip_last _ N2) as M2.
+  destruct (rstrip_last (a1 :: t1)) as [|b1 u1] eqn:R1; [destruct t1; discriminate|].
+  destruct (rstrip_last (a2 :: t2)) as [|b2 u2] eqn:R2; [destruct t2; discriminate|].
+  cbn [hd tl].
+  apply (f_equal split_nl) in H.
+  assert (E1 : exists x y, edge_strip (f_at_start cfg) (b1 :: u1) = x :: y) by (eexists _, _; reflexivity).
+  assert (E2 : exists x y, edge_strip (f_at_start cfg) (b2 :: u2) = x :: y) by (eexists _, _; reflexivity).
+  destruct E1 as (x1 & y1 & E1). destruct E2 as (x2 & y2 & E2).
+  pose proof (noNL_edge_strip (f_at_start cfg) _ M1) as K1.
+  pose proof (noNL_edge_strip (f_at_start cfg) _ M2) as K2.
+  rewrite E1 in H, K1. rewrite E2 in H, K2. rewrite !split_joinl in H by assumption.
+  rewrite <- (fmt_lines_edge cfg b1 u1), <- (fmt_lines_edge cfg b2 u2).
+  rewrite E1, E2, H. reflexivity.
+Qed.
